@@ -85,56 +85,7 @@ def Kind.name (k : Kind) : String :=
 
 abbrev T := E UInt64
 
-mutual
-partial def parseE : List String → Option (T × List String)
-  | "n" :: b :: r => (hexU64 b).map (fun v => (.num v, r))
-  | "v" :: i :: r => i.toInt?.map (fun v => (.ref .var v, r))
-  | "c" :: i :: r => i.toInt?.map (fun v => (.ref .common v, r))
-  | "u" :: k :: r => do
-      let k ← UnK.table.lookup k
-      let (a, r) ← parseE r
-      pure (.un k a, r)
-  | "b" :: k :: r => do
-      let k ← BinK.table.lookup k
-      let (x, r) ← parseE r
-      let (y, r) ← parseE r
-      pure (.bin k x y, r)
-  | "i" :: k :: r => do
-      let k ← IfK.table.lookup k
-      let (c, r) ← parseE r
-      let (t, r) ← parseE r
-      let (e, r) ← parseE r
-      pure (.ite k c t e, r)
-  | "p" :: n :: r => do
-      let n ← n.toNat?
-      let (sb, r) ← parsePairs n r
-      match r with
-      | l :: r =>
-        let last ← hexU64 l
-        let (a, r) ← parseE r
-        pure (.pl sb last a, r)
-      | [] => none
-  | "f" :: f :: n :: r => do
-      let f ← f.toNat?
-      let n ← n.toNat?
-      let (as, r) ← parseN n r
-      pure (.call f as, r)
-  | "t" :: k :: n :: r => do
-      let k ← IterK.table.lookup k
-      let n ← n.toNat?
-      let (as, r) ← parseN n r
-      pure (.iter k as, r)
-  | "l" :: "0" :: r => some (.bool false, r)
-  | "l" :: "1" :: r => some (.bool true, r)
-  | "s" :: h :: r => (hexBytes h).map (fun s => (.str s, r))
-  | _ => none
-partial def parseN : Nat → List String → Option (List T × List String)
-  | 0, r => some ([], r)
-  | n + 1, r => do
-      let (a, r) ← parseE r
-      let (as, r) ← parseN n r
-      pure (a :: as, r)
-partial def parsePairs : Nat → List String → Option (List (UInt64 × UInt64) × List String)
+def parsePairs : Nat → List String → Option (List (UInt64 × UInt64) × List String)
   | 0, r => some ([], r)
   | n + 1, s :: b :: r => do
       let s ← hexU64 s
@@ -142,6 +93,61 @@ partial def parsePairs : Nat → List String → Option (List (UInt64 × UInt64)
       let (ps, r) ← parsePairs n r
       pure ((s, b) :: ps, r)
   | _, _ => none
+
+mutual
+/-- recursive descent with fuel (one unit per node; the driver passes the number of tokens) -/
+def parseE : Nat → List String → Option (T × List String)
+  | 0, _ => none
+  | fuel + 1, toks =>
+    match toks with
+    | "n" :: b :: r => (hexU64 b).map (fun v => (.num v, r))
+    | "v" :: i :: r => i.toInt?.map (fun v => (.ref .var v, r))
+    | "c" :: i :: r => i.toInt?.map (fun v => (.ref .common v, r))
+    | "u" :: k :: r => do
+        let k ← UnK.table.lookup k
+        let (a, r) ← parseE fuel r
+        pure (.un k a, r)
+    | "b" :: k :: r => do
+        let k ← BinK.table.lookup k
+        let (x, r) ← parseE fuel r
+        let (y, r) ← parseE fuel r
+        pure (.bin k x y, r)
+    | "i" :: k :: r => do
+        let k ← IfK.table.lookup k
+        let (c, r) ← parseE fuel r
+        let (t, r) ← parseE fuel r
+        let (e, r) ← parseE fuel r
+        pure (.ite k c t e, r)
+    | "p" :: n :: r => do
+        let n ← n.toNat?
+        let (sb, r) ← parsePairs n r
+        match r with
+        | l :: r =>
+          let last ← hexU64 l
+          let (a, r) ← parseE fuel r
+          pure (.pl sb last a, r)
+        | [] => none
+    | "f" :: f :: n :: r => do
+        let f ← f.toNat?
+        let n ← n.toNat?
+        let (as, r) ← parseN fuel n r
+        pure (.call f as, r)
+    | "t" :: k :: n :: r => do
+        let k ← IterK.table.lookup k
+        let n ← n.toNat?
+        let (as, r) ← parseN fuel n r
+        pure (.iter k as, r)
+    | "l" :: "0" :: r => some (.bool false, r)
+    | "l" :: "1" :: r => some (.bool true, r)
+    | "s" :: h :: r => (hexBytes h).map (fun s => (.str s, r))
+    | _ => none
+def parseN : Nat → Nat → List String → Option (List T × List String)
+  | _, 0, r => some ([], r)
+  | 0, _ + 1, _ => none
+  | fuel + 1, n + 1, r => do
+      let (a, r) ← parseE fuel r
+      let (as, r) ← parseN fuel n r
+      pure (a :: as, r)
 end
 
 /-- primitive values whose hash the tree needs -/
@@ -149,7 +155,7 @@ inductive Key where
   | kind (k : Kind) | dbl (v : UInt64) | int (i : Int) | bool (b : Bool) | char (c : UInt8) | func (f : Nat)
 
 mutual
-partial def keys : T → List Key
+def keys : T → List Key
   | .num v => [.kind .number, .dbl v]
   | .ref k i => [.kind (.ref k), .int i]
   | .un k a => .kind (.un k) :: keys a
@@ -160,7 +166,7 @@ partial def keys : T → List Key
   | .iter k as => .kind (.iter k) :: keysL as
   | .bool v => [.kind .bool, .bool v]
   | .str s => .kind .string :: (cstr s).map .char
-partial def keysL : List T → List Key
+def keysL : List T → List Key
   | [] => []
   | a :: as => keys a ++ keysL as
 end
